@@ -139,7 +139,11 @@ class Constant(Leaf):
 
     def _pretty(self, lean=False):
         _ = lean
-        return f'`{self.literal!s}`'
+        literal = self.literal
+        if isinstance(literal, float) and literal in {float('inf'), float('-inf')}:
+            # NOTE: str() of an overflowed float is a name, which reads back as text
+            return '`1e999`' if literal > 0 else '`-1e999`'
+        return f'`{literal!s}`'
 
     @cached_property
     def _nullable(self) -> bool:
